@@ -295,7 +295,7 @@ def build_matrix_builder(kind: str, container: Optional[str] = None) -> LayerBui
         # parameters with explicit positions that are NOT listed in the order of their positions
         rq = b.request("rq_pos0", [b.coded_const("sid", 0x31, byte_position=0), b.value("hi", u8, byte_position=3),
                                    b.coded_const("sub", 0xF0, byte_position=1), b.value("lo", u8, byte_position=2)])
-        rs = b.response("rs_pos0", [b.value("last", u16, byte_position=3), b.coded_const("sid", 0x71, byte_position=0),
+        rs = b.response("rs_pos0", [b.coded_const("sid", 0x71, byte_position=0), b.value("last", u16, byte_position=3),
                                     b.value("mid", u8, byte_position=2), b.coded_const("sub", 0xF0, byte_position=1)])
         b.service("pos0", rq, [rs], [])
         b.examples["rq_pos0"] = ["31f00102"]
